@@ -1,8 +1,10 @@
-"""independent CRC specification: remainder of m(x)*x^w modulo g, defined on monomials (no shift register)"""
+"""Independent CRC specification: remainder of m(x) * x^w modulo g(x), defined on monomials by schoolbook division on
+Python ints - no shift register, no table.  ETSI TS 102 361-1 annex B.3.7 - B.3.12 parameters (see DESIGN.md C05 for
+provenance: the standard is not available offline; polynomials / masks are written down from knowledge of the standard)."""
 
 
 def monomial_remainder(e, g, w):
-    """x^e mod (x^w + g) as an int (g without the leading term)"""
+    """x^e mod (x^w + g) as an int (g given without its leading term)"""
     full = g | (1 << w)
     v = 1 << e
     while v.bit_length() > w:
@@ -11,7 +13,7 @@ def monomial_remainder(e, g, w):
 
 
 def poly_remainder_bits(bits, g, w):
-    """bits: list of bit values (0/1 or symbolic), MSB first -> list of w bit values, MSB first"""
+    """bits: list of bit values (0/1 or symbolic), first bit = highest power -> list of w bit values, MSB first"""
     n = len(bits)
     out = [0] * w
     for i, b in enumerate(bits):
@@ -23,7 +25,9 @@ def poly_remainder_bits(bits, g, w):
 
 
 def lfsr(reg, chunk, g, w):
-    """bit-serial register update, MSB first (used only as loop invariant / table definition)"""
+    """register after shifting `chunk` in, MSB first: reg' = (reg * x^len + chunk * x^w) mod g.  Used as the loop
+    invariant of the bit-serial register and as the definition of the look-up table; itself checked against
+    poly_remainder_bits by the contract `spec.lfsr_is_remainder`."""
     reg = list(reg)
     for d in chunk:
         fb = reg[0] ^ d
@@ -32,14 +36,23 @@ def lfsr(reg, chunk, g, w):
     return reg
 
 
-ETSI = {  # ETSI TS 102 361-1 B.3.7 - B.3.10 (+ 7-bit CRC of B.3.13); see DESIGN.md C05 for provenance
-    "Crc7": (0x27, 7),
-    "Crc8": (0x07, 8),
-    "Crc9": (0x059, 9),
-    "Crc16": (0x1021, 16),
+def byteswap16(octets):
+    """B.3.9: the CRC-32 is computed over the data taken as 16-bit words, least significant octet first; a trailing odd
+    octet stays in place"""
+    o = list(octets)
+    for i in range(0, len(o) - 1, 2):
+        o[i], o[i + 1] = o[i + 1], o[i]
+    return o
+
+
+ETSI = {  # name -> (generator polynomial without leading term, width)
+    "Crc7": (0x27, 7),  # x^7 + x^5 + x^2 + x + 1
+    "Crc8": (0x07, 8),  # x^8 + x^2 + x + 1
+    "Crc9": (0x059, 9),  # x^9 + x^6 + x^4 + x^3 + 1
+    "Crc16": (0x1021, 16),  # CRC-CCITT x^16 + x^12 + x^5 + 1
     "Crc32": (0x04C11DB7, 32),
 }
-MASKS = {  # table B.21
+MASKS = {  # B.3.12 data type CRC masks
     "PiHeader": 0x6969, "VoiceLCHeader": 0x969696, "TerminatorWithLC": 0x999999, "CSBK": 0xA5A5, "MBCHeader": 0xAAAA,
     "DataHeader": 0xCCCC, "UnifiedSingleBlockData": 0x3333, "Rate12DataContinuation": 0x0F0,
     "Rate34DataContinuation": 0x1FF, "Rate1DataContinuation": 0x10F, "ReverseChannel": 0x7A,
